@@ -126,6 +126,8 @@ def _abs(D, n, mf, depth):
         if kind == 'let':
             return _abs(D, x, mf, depth - 1)
         # loop / destructured element
+        if kind == 'forfield':
+            x = x[0]
         base = x
         while isinstance(base, dict) and base.get('k') in ('MCall', 'Ref', 'Un', 'Cast'):
             if base.get('k') == 'MCall' and base['n'] not in DROP_METHODS and base['n'] not in ('zip', 'zip_eq'):
